@@ -18,6 +18,7 @@ def actOf (j : Json) : Option Act :=
   match j with
   | Json.arr a =>
     match strAt a 0 with
+    | "submit" => some (.submit (natAt a 1))
     | "begin" => some (.begin (natAt a 1))
     | "finish" => some (.finish (natAt a 1) (finOf a))
     | "timerFire" => some (.timerFire (natAt a 1) (boolAt a 2))
